@@ -131,6 +131,18 @@ void runDec(const json& ep)
             *state = slots.at(slot);
             o.obj().kv("e", "dec.restore").kv("slot", slot).end();
         }
+        else if (name == "tdecode")
+        {
+            // the static TECMP decoder called directly (it is public API too)
+            const std::vector<uint8_t> in = bytesOf(op.at("in"));
+            std::vector<std::shared_ptr<Packet>> out;
+            {
+                GuardedBuffer buf(in, op.value("place", 0) == 1);
+                out = TECMP::Decoder::Decode(buf.data(), in.size());
+                buf.release();
+            }
+            o.obj().kv("e", "dec.tdecode").bytes("in", in).raw("out", snapAll(out)).end();
+        }
         else if (name == "enc.new")
         {
             const int e = op.at("enc").get<int>();
